@@ -802,16 +802,64 @@ func ruleS6(r *Run) {
 			}
 			return true
 		})
+		payload := ""
+		cpPos := token.NoPos
+		if cp != nil {
+			payload, cpPos = types.ExprString(cp.Args[1]), cp.Pos()
+		} else {
+			// the copy may have moved into a helper of the package that is given the array as a slice (packDatagram(buffer[:],
+			// index, body) with copy(buffer[8:], body) inside): the helper's copy, read with the caller's arguments
+			ast.Inspect(fd.Body, func(n ast.Node) bool {
+				call, ok := n.(*ast.CallExpr)
+				if !ok || cp != nil {
+					return true
+				}
+				d, cpkg := p.calleeDecl(info, call)
+				if d == nil || cpkg != pkg || d.Body == nil {
+					return true
+				}
+				params := paramsOf(info, d.Type)
+				argOf := func(o types.Object) ast.Expr {
+					for i, pv := range params {
+						if pv != nil && types.Object(pv) == o && i < len(call.Args) {
+							return call.Args[i]
+						}
+					}
+					return nil
+				}
+				ast.Inspect(d.Body, func(m ast.Node) bool {
+					ic, ok := m.(*ast.CallExpr)
+					if !ok || !IsBuiltin(info, ic, "copy") || len(ic.Args) != 2 {
+						return true
+					}
+					se, ok := ast.Unparen(ic.Args[0]).(*ast.SliceExpr)
+					if !ok || se.Low == nil {
+						return true
+					}
+					dstArg, srcArg := argOf(identObj(info, se.X)), argOf(identObj(info, ic.Args[1]))
+					if dstArg == nil || srcArg == nil {
+						return true
+					}
+					// the destination argument is the whole array: arr[:]
+					if ase, ok := ast.Unparen(dstArg).(*ast.SliceExpr); ok && ase.Low == nil && ase.High == nil {
+						if _, isArr := info.TypeOf(ase.X).Underlying().(*types.Array); isArr {
+							cp, bufObj, payload, cpPos = ic, identObj(info, ase.X), types.ExprString(srcArg), call.Pos()
+						}
+					}
+					return true
+				})
+				return true
+			})
+		}
 		if cp == nil {
 			r.Undec(key, fd.Pos(), "copy of the payload into the datagram buffer not found")
 			continue
 		}
-		payload := types.ExprString(cp.Args[1])
 		guarded := false
 		headerShort := ""
 		ast.Inspect(fd.Body, func(n ast.Node) bool {
 			ifs, ok := n.(*ast.IfStmt)
-			if !ok || ifs.Pos() > cp.Pos() {
+			if !ok || ifs.Pos() > cpPos {
 				return true
 			}
 			mPayload, mBuf := false, false
